@@ -268,8 +268,18 @@ void fill_base(Rng &g, Scn &s, int Tmax_small) {
   s.i["outb"] = bufs[g.below(5)];
   s.i["sio"] = g.chance(0.5) ? 1 : 0;
   s.i["ioseed"] = (long)(g.next() >> 2);
+  s.i["fz"] = g.chance(0.2) ? 1 : 0;
   Bytes key(16);
   g.bytes(key.data(), 16);
+  switch (g.below(24)) {   // a few structured keys: C-string style handling of the key, sign / zero byte slips
+  case 0: key.assign(16, 0x00); break;
+  case 1: key.assign(16, 0xFF); break;
+  case 2: key[0] = 0; break;
+  case 3: key[g.below(16)] = 0; break;
+  case 4: key[8] = 0; key[15] = 0; break;
+  case 5: for (auto &c : key) c |= 0x80; break;
+  default: break;
+  }
   s.b["key"] = key;
   // seed lengths: mostly short; sometimes the edges that matter for a hashed, length-scanned C string
   static const size_t edge[] = {0, 1, 55, 56, 63, 64, 65, 119, 120, 255, 256, 257, 263, 300, 511, 512, 1000};
@@ -295,7 +305,7 @@ OpSpec base_op(const Scn &s, int kind, int slot, SimFile *fin, SimFile *fout, lo
   op.outbuf = (int)s.geti("outb", -1);
   op.short_io = s.geti("sio", 0) != 0;
   op.io_seed = Rng::mix((uint64_t)s.geti("ioseed", 1), slot);
-  op.fsize = (size_t)nbytes;
+  op.fsize = s.geti("fz", 0) ? 0 : (size_t)nbytes;   // the size argument only feeds the progress display; callers may pass 0
   op.sc = sc_for(s, slot, nbytes, op.T);
   return op;
 }
